@@ -140,21 +140,25 @@ def run_sim(pexpect, case):
             use_async = bool(case.get('async', [])[k:k + 1] == [True])
             fake.waits = []
             ints_before = fake.ints
+            # the caller's timeout: a number, None (wait as long as it takes) or -1 / nothing (the default of the spawn object)
+            tmo = [7, 7, None, -1, 2.5, 'omitted'][(k + len(command)) % 6]
+            kw = {} if tmo == 'omitted' else {'timeout': tmo}
             if use_async:
                 def call():
                     loop = asyncio.new_event_loop()
                     try:
-                        return loop.run_until_complete(w.run_command(command, timeout=7, async_=True))
+                        return loop.run_until_complete(w.run_command(command, async_=True, **kw))
                     finally:
                         loop.close()
                 r = outcome_of(call, pexpect)
             else:
-                r = outcome_of(lambda: w.run_command(command, timeout=7), pexpect)
+                r = outcome_of(lambda: w.run_command(command, **kw), pexpect)
             obs.append([r, wv()])
             records.append((command, r))
-            bad_waits = [t for t, ints in fake.waits if t != 7 and ints == ints_before]
+            norm = lambda t_: fake.timeout if t_ in (-1, 'omitted') else t_
+            bad_waits = [t for t, ints in fake.waits if norm(t) != norm(tmo) and ints == ints_before]
             if bad_waits:
-                records.append(('TIMEOUTS', command, use_async, bad_waits))
+                records.append(('TIMEOUTS', command, use_async, bad_waits, tmo))
     finally:
         pa.expect_async = real_async
     obs.append(list(fake.got))
@@ -162,8 +166,8 @@ def run_sim(pexpect, case):
     return obs, records
 
 
-VOCAB = ['ehello', 'e', 'n', 'nxyz', 'bab', 'b', 'p', 'q', '(', ')', '', 'zzz', 'e[PEXPECT', 'n[PEXPECT_PROMPT', 'eé€', 'e a b ', ' ', 'e>']
-CLEAN = ['ehello', 'e', 'n', 'nxyz', 'bab', '', 'zzz', 'eé€', 'e a b ', 'n[PEXPECT_PROMPT', 'e[PEXPECT']
+VOCAB = ['sabc', 's', 'ehello', 'e', 'n', 'nxyz', 'bab', 'b', 'p', 'q', '(', ')', '', 'zzz', 'e[PEXPECT', 'n[PEXPECT_PROMPT', 'eé€', 'e a b ', ' ', 'e>']
+CLEAN = ['sabc', 's', 'ehello', 'e', 'n', 'nxyz', 'bab', '', 'zzz', 'eé€', 'e a b ', 'n[PEXPECT_PROMPT', 'e[PEXPECT']
 
 
 def gen_command(rng, clean):
@@ -243,7 +247,7 @@ def direct_oracle(ctx, case, records, state):
         if rec[0] == 'TIMEOUTS':
             if state['hits'] < 3:
                 state['hits'] += 1
-                ctx.hit('C16/sim-timeout', '%s(%r, timeout=7): a wait for the prompt was given timeout %r instead of the caller\'s' % ('await run_command' if rec[2] else 'run_command', rec[1], rec[3][0]),
+                ctx.hit('C16/sim-timeout', '%s(%r, timeout=%r): a wait for the prompt was given timeout %r instead of the caller\'s' % ('await run_command' if rec[2] else 'run_command', rec[1], rec[4] if len(rec) > 4 else 7, rec[3][0]),
                         {'case': repr(case)})
             continue
         command, r = rec
@@ -415,7 +419,7 @@ def run(ctx):
         for rec in records:
             if rec[0] == 'TIMEOUTS' and state['hits'] < 3:
                 state['hits'] += 1
-                ctx.hit('C16/sim-timeout', '%s(%r, timeout=7): a wait for the prompt was given timeout %r instead of the caller\'s' % ('await run_command' if rec[2] else 'run_command', rec[1], rec[3][0]),
+                ctx.hit('C16/sim-timeout', '%s(%r, timeout=%r): a wait for the prompt was given timeout %r instead of the caller\'s' % ('await run_command' if rec[2] else 'run_command', rec[1], rec[4] if len(rec) > 4 else 7, rec[3][0]),
                         {'case': repr(case)})
         records = [rec for rec in records if rec[0] != 'TIMEOUTS']
         if case['clean']:
